@@ -464,6 +464,27 @@ pub fn generate(seed: u64, n: usize, thorough: bool, corpus: Option<&str>) -> Ve
         }
         for src in progs { cases.push(run(src, vec!["stream:multi-index-access".into(), format!("multi-index-access:{}", k)], &mut pool)); k += 1; }
     }
+    // ---- descending bound cycles that run through NON-AFFINE rows only (min / max / abs): bound inference must give up after its
+    //      step budget, linearize must terminate - deterministic
+    {
+        let mut progs: Vec<String> = vec![
+            "min x + y\ns.t.\n    x <= min{y - 1, 100}\n    y <= min{x - 1, 100}\ndefine\n    x, y as Real\n".into(),
+            "min x + y\ns.t.\n    x + abs{z} <= y - 1\n    y + abs{z} <= x - 1\ndefine\n    x, y as Real(MinusInfinity, 50)\n    z as Real(-1, 1)\n".into(),
+            "max x + y\ns.t.\n    x >= max{y + 1, 0 - 100}\n    y >= max{x + 1, 0 - 100}\ndefine\n    x, y as Real\n".into(),
+            "min x\ns.t.\n    x <= min{y - 1, 100}\n    y <= min{w - 1, 100}\n    w <= min{x - 1, 100}\ndefine\n    x, y, w as Real\n".into(),
+            "min x + y\ns.t.\n    x <= min{y - 0.5, z}\n    y <= min{x - 0.5, z}\ndefine\n    x, y as Real\n    z as Real(0, 10)\n".into(),
+            "min x + y\ns.t.\n    x + max{z, 0} <= y - 1\n    y + max{z, 0} <= x - 1\ndefine\n    x, y as Real(MinusInfinity, 50)\n    z as Real(-1, 1)\n".into(),
+            "min x + y\ns.t.\n    abs{x} <= y - 1\n    abs{y} <= x - 1\ndefine\n    x, y as Real\n".into(),
+            "min x + y\ns.t.\n    x <= min{y - 1, 100}\n    y <= x - 1\ndefine\n    x, y as Real\n".into(),
+            "min x + y\ns.t.\n    2 * x <= min{y - 1, 100}\n    2 * y <= min{x - 1, 100}\ndefine\n    x, y as Real\n".into(),
+            "min x + y\ns.t.\n    x <= min{y - 1, 100}\n    y <= min{x - 1, 100}\ndefine\n    x, y as Real(MinusInfinity, 1000)\n".into(),
+        ];
+        for k in 1..=10 {
+            progs.push(format!("min x + y\ns.t.\n    x <= min{{y - {}, {}}}\n    y <= min{{x - {}, {}}}\ndefine\n    x, y as Real\n", k, 50 * k, k, 50 * k));
+            progs.push(format!("min x + y\ns.t.\n    x + abs{{z}} <= y - {}\n    y + abs{{z}} <= x - {}\ndefine\n    x, y as Real(MinusInfinity, {})\n    z as Real(-{}, {})\n", k, k, 10 * k, k, k));
+        }
+        for (k, src) in progs.into_iter().enumerate() { cases.push(run(src, vec!["stream:non-affine-bound-cycles".into(), format!("non-affine-bound-cycles:{}", k)], &mut pool)); }
+    }
     // ---- tableau start: standard forms with at least as many private positive columns as rows that do NOT cover every row
     //      (one `<=` row owning several otherwise unused unbounded variables, next to equality / pinned rows owning none):
     //      no basis can be read off, the tableau solver must fall back (two phases) - deterministic block, the same on every seed
